@@ -77,6 +77,49 @@ func runC16(w *World, r *Report) {
 		return false
 	}
 
+	// ---- every option, every designated path and every node is visited
+	r.Rule("C16.visits-all", "the loops of extractOption (options, nodes, designated paths) are left only when exhausted or with an error", 3)
+	{
+		loops := naturalLoops(eo)
+		if len(loops) < 3 {
+			undecidedf("C16.visits-all: %d loops in extractOption (floor 3)", len(loops))
+		}
+		bad := map[*ssa.BasicBlock]bool{}
+		for _, ex := range earlyExits(eo) {
+			if ex.errExit {
+				continue
+			}
+			bad[ex.loop.header] = true
+			r.Fail("C16.visits-all", "extractOption: "+ex.loop.what, exitPos(ex), "the loop can be left early without an error (break / return): the remaining elements are not processed — a later designated path of the same option is ignored, nested paths are not forwarded and unknown nodes after it are not reported")
+		}
+		for _, li := range loops {
+			if !bad[li.header] {
+				r.OK("C16.visits-all", "extractOption: "+li.what, li.pos, "exits: exhaustion or error return only")
+			}
+		}
+	}
+
+	// ---- options are handed on by every wrapper
+	r.Rule("C16.opts-forwarded", "a function taking call options that calls another callable taking call options passes its own options on", 40)
+	{
+		keys := map[string]int{}
+		for _, site := range optsForwardSites(w, w.RepoFuncs("compose", "flow", "components", "schema", "callbacks", "utils")) {
+			base := fmt.Sprintf("%s calls %s", w.fname(site.in), site.what)
+			keys[base]++
+			construct := base
+			if keys[base] > 1 {
+				construct = fmt.Sprintf("%s #%d", base, keys[base])
+			}
+			if site.ok {
+				r.OK("C16.opts-forwarded", construct, site.call.Pos(), "variadic argument derives from the caller's opts")
+			} else if reason, ok := optsForwardExceptions[base]; ok {
+				r.Except("C16.opts-forwarded", construct, site.call.Pos(), reason)
+			} else {
+				r.Fail("C16.opts-forwarded", construct, site.call.Pos(), "the options received by "+w.fname(site.owner)+" are not passed to this call: options addressed to the wrapped node (and to everything below it) are silently dropped in this execution mode")
+			}
+		}
+	}
+
 	// ---- error-arms
 	r.Rule("C16.error-arms", "empty path / unknown node / sub-path of a component / option type mismatch are error returns", 4)
 	arm := func(name string, pred func(iff *ssa.If) (int, bool)) {
@@ -363,3 +406,12 @@ func runC16(w *World, r *Report) {
 	}
 	r.Check(nTypeOf >= 3, "C16.reflect-zero", "reflect.TypeOf call sites inspected", eo.Pos(), fmt.Sprintf("%d sites", nTypeOf), "the rule no longer sees the TypeOf calls of the option type checks")
 }
+
+func exitPos(ex loopExit) token.Pos {
+	if p := blockPos(ex.from); p != token.NoPos {
+		return p
+	}
+	return ex.loop.pos
+}
+
+var optsForwardExceptions = map[string]string{}
